@@ -30,14 +30,17 @@ def check(ctx, rep):
     rep.rule("R-DEFAULT", "an omitted map function is the identity (f_return for flat_map); an omitted error function means the delegate's exception is propagated as is")
     rep.rule("R-PLUMB", "fn / error_fn given to MapExecutor, FlatMapExecutor, f_map and f_flat_map reach the future's map / error function fields unchanged, and the future is built on the delegate's future of the same submission")
     mf = prog.cls("MapFuture")
-    cb = mf.methods.get("_delegate_resolved")
-    rep.require(cb is not None, "MapFuture._delegate_resolved not found")
+    from ..roles import registered_callbacks, is_identity, bound, std_inline
+    cbs = [m for m, recv in registered_callbacks(ctx, mf).values() if recv != ("param", "self")]
+    rep.require(len(cbs) == 1, "MapFuture: expected exactly one callback registered on the delegate, found %s" % [m.qualname for m in cbs])
+    cb = cbs[0]
+    CBNAME[0] = cb.name
     SELF = ("param", "self")
     D = ("param", cb.params[1])
     MAPF = ("attr", SELF, "_map_fn")
     ERRF = ("attr", SELF, "_error_fn")
     flags = cancelling_flags(ctx)
-    classes = [c for c in prog.subclasses(mf) if c.lookup("_delegate_resolved")[1] is cb]
+    classes = [c for c in prog.subclasses(mf) if c.lookup(cb.name)[1] is cb]
     rep.count("MapFuture classes sharing the resolution callback", len(classes), 5)
     for ci in classes:
         stages = [("", None)]
@@ -113,7 +116,11 @@ def check(ctx, rep):
                 continue
             subs = [e for e in p.calls() if q.call_name(e) == "submit" and q.recv(e) == ("attr", SELF, "_delegate")]
             mk = [e for e in p.calls() if isinstance(e.d["func"], tuple) and e.d["func"][0] == "class" and e.d["func"][1].split(":")[-1] == want_cls]
-            ok = len(subs) == 1 and len(mk) == 1 and mk[0].d["args"][0][:2] == ("call", subs[0].d["func"]) and mk[0].d["args"][1:] == (("attr", SELF, "_fn"), ("attr", SELF, "_error_fn")) and not mk[0].d["kwargs"]
+            ok = len(subs) == 1 and len(mk) == 1
+            if ok:
+                b = bound(mk[0], prog)
+                vals = [v for k, v in b.items() if isinstance(v, tuple)]
+                ok = any(v[:2] == ("call", subs[0].d["func"]) for v in vals) and b.get("map_fn") == ("attr", SELF, "_fn") and b.get("error_fn") == ("attr", SELF, "_error_fn")
             rep.ob("R-PLUMB", "%s.submit builds a %s on this submission's delegate future with (fn, error_fn)" % (cname, want_cls), ok, "constructed: %s" % ([fmt(e.d["func"]) + str([fmt(a) for a in e.d["args"]]) for e in mk]), where_of(sub), trace_of(p))
     # ---- plumbing: f_map / f_flat_map
     wrapf = prog.fn("base:wrap")
@@ -152,46 +159,49 @@ def _init_only(callee, ev, path):
 
 
 def _stage2_entry(ctx, rep, ci, cb):
-    """field state left by the flatten transition of stage 1 = entry state of stage 2"""
-    om = ci.methods.get("_on_mapped")
-    rep.require(om is not None, "FlatMapFuture._on_mapped not found")
+    """field state left by the flatten transition of stage 1 = entry state of stage 2.  Found on the paths of the
+    resolution callback (stage-1 entry state) that register the callback again on the value returned by the user's
+    function; no helper is referred to by name."""
+    from ..roles import is_identity, std_inline
     SELF = ("param", "self")
-    ps, it = ctx.paths(om, ci, depth=2, pre=((("attr", SELF, "_FlatMapFuture__flattened"), ("const", False)),))
+    FLAT = ("attr", SELF, "_FlatMapFuture__flattened")
+    # the stage flag: a field of the class initialised False by the constructor and stored True on the re-point path
+    ps, it = ctx.paths(cb, ci, depth=7, pre=((FLAT, ("const", False)),), inline=_no_cb_inline)
     entry = None
+    saw_type_error = False
     for p in ps:
-        if p.status != "return":
+        if infeasible(p):
             continue
-        regs = [e for e in p.calls() if q.call_name(e) == "add_done_callback"]
-        if not regs:
+        regs = [e for e in p.calls() if q.call_name(e) == "add_done_callback" and len(e.d["args"]) == 1 and e.d["args"][0] == ("attr", SELF, cb.name) and q.recv(e) != ("param", cb.params[1])]
+        for c in p.evs("catch"):
+            exc = c.d["exc"]
+            if isinstance(exc, tuple) and exc[1] == "TypeError":
+                saw_type_error = True
+        if not regs or p.status != "return":
             continue
-        ok = regs[0].d["args"] == (("attr", SELF, "_delegate_resolved"),) and q.recv(regs[0]) in (("param", om.params[1]), ("attr", SELF, "_delegate"))
-        rep.ob("R-TABLE", "FlatMapFuture stage 1 -> 2: the returned future becomes the delegate", ok and p.heap.get(("attr", SELF, "_delegate")) == ("param", om.params[1]), "the resolution callback must be registered on the future returned by the map function", where_of(om), trace_of(p))
+        ucalls = [e for e in p.calls() if e.d.get("user")]
+        if not ucalls:
+            continue
+        r = q.result_of(ucalls[-1])
+        newd = q.recv(regs[0])
+        dv = p.heap.get(("attr", SELF, "_delegate"))
+        rep.ob("R-TABLE", "FlatMapFuture stage 1 -> 2: the returned future becomes the delegate", (newd == r or newd == ("attr", SELF, "_delegate")) and dv == r, "the resolution callback must be registered on the future returned by the user's function (registered on %s, delegate is %s)" % (fmt(newd), fmt(dv) if dv else None), where_of(regs[0].fn, regs[0].node), trace_of(p))
         st = {}
         for k in ("_FlatMapFuture__flattened", "_map_fn", "_error_fn"):
             st[k] = p.heap.get(("attr", SELF, k))
-        # the neutralised map function must be an identity
         mfv = st.get("_map_fn")
-        ident = False
-        if isinstance(mfv, tuple) and mfv[0] == "closure":
-            sub = it.closures[mfv[2]][0]
-            ps2, _ = ctx.paths(sub, None, depth=0)
-            ident = len(sub.params) == 1 and all(p2.status == "return" and p2.value == ("param", sub.params[0]) for p2 in ps2)
-        rep.ob("R-TABLE", "FlatMapFuture stage 1 -> 2: map function neutralised", ident, "after flattening _map_fn is %s" % (fmt(mfv) if mfv else "unchanged (the user's function would be applied to the flattened result again)"), where_of(om), trace_of(p))
-        rep.ob("R-TABLE", "FlatMapFuture stage 1 -> 2: error function neutralised", st.get("_error_fn") == ("const", None), "after flattening _error_fn is %s: a failure of the flattened future would be handed to the user's error_fn and its return value would become the output's *value*" % (fmt(st["_error_fn"]) if st.get("_error_fn") else "left armed"), where_of(om), trace_of(p))
-        rep.ob("R-TABLE", "FlatMapFuture stage 1 -> 2: stage recorded", st.get("_FlatMapFuture__flattened") == ("const", True), "", where_of(om))
-        # the returned future may already be done: the callback then runs inside add_done_callback, so
-        # everything must be neutralised before the registration
+        rep.ob("R-TABLE", "FlatMapFuture stage 1 -> 2: map function neutralised", mfv is not None and is_identity(ctx, mfv), "after flattening _map_fn is %s" % (fmt(mfv) if mfv else "unchanged (the user's function would be applied to the flattened result again)"), where_of(regs[0].fn, regs[0].node), trace_of(p))
+        rep.ob("R-TABLE", "FlatMapFuture stage 1 -> 2: error function neutralised", st.get("_error_fn") == ("const", None), "after flattening _error_fn is %s: a failure of the flattened future would be handed to the user's error_fn and its return value would become the output's *value*" % (fmt(st["_error_fn"]) if st.get("_error_fn") else "left armed"), where_of(regs[0].fn, regs[0].node), trace_of(p))
+        rep.ob("R-TABLE", "FlatMapFuture stage 1 -> 2: stage recorded", st.get("_FlatMapFuture__flattened") == ("const", True), "", where_of(regs[0].fn, regs[0].node))
         late = [e for e in p.evs("store") if e.seq > regs[0].seq and e.d["target"][0] == "attr" and e.d["target"][1] == SELF and e.d["target"][2] in st]
-        rep.ob("R-TABLE", "FlatMapFuture stage 1 -> 2: neutralised before the new delegate is registered", not late, "%s is set only after the resolution callback was registered on the returned future: if that future is already done the callback runs first, with the user's functions still armed" % ", ".join(sorted(set(e.d["target"][2] for e in late))), where_of(om), trace_of(p))
+        rep.ob("R-TABLE", "FlatMapFuture stage 1 -> 2: neutralised before the new delegate is registered", not late, "%s is set only after the resolution callback was registered on the returned future: if that future is already done the callback runs first, with the user's functions still armed" % ", ".join(sorted(set(e.d["target"][2] for e in late))), where_of(regs[0].fn, regs[0].node), trace_of(p))
         entry = tuple(sorted(((("attr", SELF, k), v) for k, v in st.items() if v is not None), key=lambda kv: kv[0][2]))
-    rep.require(entry is not None, "FlatMapFuture._on_mapped: flatten transition not found")
-    # a non-future result must raise TypeError (reported as the outcome by the caller's handler)
-    saw = False
-    for p in ps:
-        if p.status == "raise":
-            saw = saw or (p.value[1] == "TypeError")
-    rep.ob("R-TABLE", "FlatMapFuture stage 1: a non-future result raises TypeError", saw, "no path raises TypeError for a result without add_done_callback", where_of(om))
+    rep.require(entry is not None, "FlatMapFuture: flatten transition not found on the resolution callback's paths")
+    rep.ob("R-TABLE", "FlatMapFuture stage 1: a non-future result raises TypeError", saw_type_error, "no path raises (and reports) a TypeError for a result without add_done_callback", where_of(cb))
     return entry
+
+
+CBNAME = [None]
 
 
 def _row(p, it, D, MAPF, ERRF, SELF, flags, ci, pre):
@@ -204,8 +214,7 @@ def _row(p, it, D, MAPF, ERRF, SELF, flags, ci, pre):
         if first_term is not None and e.kind == "branch" and e.d[1] is False and isinstance(e.d[0], tuple) and e.d[0][0] == "call" and e.d[0][1] == ("attr", SELF, "done"):
             return None
     atoms = {}
-    for e in p.evs("branch"):
-        t, v = e.d
+    for t, v, e in q.atoms(p):
         if isinstance(t, tuple) and t[0] == "call" and t[1] == ("attr", D, "cancelled"):
             atoms.setdefault("cancelled", v)
         elif isinstance(t, tuple) and t[0] == "cmp" and t[1] == "is" and t[2][:2] == ("call", ("attr", D, "exception")) and t[3] == ("const", None):
@@ -215,10 +224,10 @@ def _row(p, it, D, MAPF, ERRF, SELF, flags, ci, pre):
             atoms["truthiness"] = e
         elif isinstance(t, tuple) and t[0] == "cmp" and t[1] == "is" and t[2] == ERRF and t[3] == ("const", None):
             atoms.setdefault("no_error_fn", v)
-        elif isinstance(t, tuple) and t[0] == "cmp" and t[1] == "is" and t[3][:1] == ("exc",):
+        elif isinstance(t, tuple) and t[0] == "cmp" and t[1] in ("is", "==") and any(isinstance(x, tuple) and x[:1] == ("exc",) for x in (t[2], t[3])):
             atoms.setdefault("same_exc", v)
-        elif isinstance(t, tuple) and t[0] == "cmp" and t[1] == "is" and isinstance(t[2], tuple) and t[2][:1] == ("call",) and t[2][1] == ("attr", D, "exception") and isinstance(t[3], tuple) and t[3][0] == "exc":
-            atoms.setdefault("same_exc", v)
+            if t[1] != "is":
+                atoms["same_by_equality"] = e
     ucalls = [e for e in p.calls() if e.d.get("user")]
     # with stage-2 preconditions the map function is a library closure (inlined), never a user call
     map_calls = [e for e in ucalls if e.d["func"] == MAPF or e.d["func"] == dict(pre or ()).get(MAPF)]
@@ -231,7 +240,7 @@ def _row(p, it, D, MAPF, ERRF, SELF, flags, ci, pre):
     from_current = any(c.d["callee"] is not None and c.d["callee"].name == "copy_exception" and c.d["args"] == (SELF,) for c in p.calls())
     raised = [e for e in p.evs("raise")]
     caught = p.evs("catch")
-    repoint = [e for e in p.calls() if q.call_name(e) == "add_done_callback" and e.d["args"] == (("attr", SELF, "_delegate_resolved"),)]
+    repoint = [e for e in p.calls() if q.call_name(e) == "add_done_callback" and len(e.d["args"]) == 1 and isinstance(e.d["args"][0], tuple) and e.d["args"][0][0] == "attr" and e.d["args"][0][1] == SELF and e.d["args"][0][2] == CBNAME[0]]
     stage2 = pre is not None and dict(pre).get(("attr", SELF, "_FlatMapFuture__flattened")) == ("const", True)
     guards = [1 for t, v in p.branch_atoms() if v and ((isinstance(t, tuple) and t[0] == "call" and t[1] == ("attr", SELF, "done")) or (isinstance(t, tuple) and t[0] == "attr" and t[1] == SELF and t[2] in flags))]
     if "truthiness" in atoms:
@@ -257,6 +266,8 @@ def _row(p, it, D, MAPF, ERRF, SELF, flags, ci, pre):
             return ("delegate failed, error_fn set", False, "error_fn must receive the delegate's exception, got %s" % [fmt(x) for x in a])
         user_raised = any(r_.seq > err_calls[0].seq and r_.d[2] and r_.d[2][0] == "from" for r_ in raised if isinstance(r_.d, tuple) and len(r_.d) > 2 and isinstance(r_.d[2], tuple))
         if user_raised and caught:
+            if "same_by_equality" in atoms:
+                return ("delegate failed, error_fn raises", False, "whether error_fn re-raised the delegate's exception is decided by ==, not by identity: an equal but different exception object would lose its own traceback / identity")
             if atoms.get("same_exc"):
                 ok = from_delegate and bool(exc) and not res
                 return ("delegate failed, error_fn re-raises the same exception", ok, "re-raising the delegate's exception must keep it (copied from the delegate, with its traceback)")
